@@ -66,28 +66,31 @@ def check(ctx):
         ctx.check(L.fullmatch(k), 'RX-LANG', f"key syntax accepts {k!r}", detail_bad=f"{k!r} rejected by the key pattern",
                   key=f"RX-LANG|_sort_custom|{k}")
     pk = ctx.repo.func('_TRSTractList._sort_custom.parse_key')
-    anchored_calls(ctx, pk, min_calls=1)
+    ctx.attempt(anchored_calls, pk, min_calls=1)
     t = ' '.join(norm(s) for s in walk_local(pk.node) if isinstance(s, ast.stmt))
-    ctx.check('if not mo: raise illegal_key_error' in t.replace('\n', ' ') or 'raise illegal_key_error' in t, 'TBL',
-              'an uninterpretable key raises ValueError', detail_bad="no raise for an unmatched key",
-              key="TBL|parse_key|nomatch")
+    ctx.shape(any(isinstance(n, ast.Raise) for n in walk_local(pk.node)), 'TBL',
+              'an uninterpretable key raises ValueError', why="no raise statement recognised in parse_key")
     ok = any(isinstance(n, ast.Raise) and 'ValueError' in norm(n) and any(
         norm(tst) == 'method not in legal_methods[var]' and pol for tst, pol in guards(n))
         for n in walk_local(pk.node))
-    ctx.check(ok, 'TBL', 'a method that does not apply to the variable raises ValueError',
-              detail_bad="`if method not in legal_methods[var]: raise ValueError` is gone",
-              key="TBL|parse_key|illegal-method")
-    ctx.check("method = 'num'" in t and "rev = mo.group('rev') is not None" in t
+    ok2 = ok or any(isinstance(n, ast.Raise) and any('legal_methods' in norm(tst) for tst, pol in guards(n))
+                    for n in walk_local(pk.node))
+    ctx.shape(ok2, 'TBL', 'a method that does not apply to the variable raises ValueError',
+              why="no raise guarded by a legal_methods test recognised")
+    ctx.shape("method = 'num'" in t and "rev = mo.group('rev') is not None" in t
               and "var_method = f'{var}.{method}'" in t.replace('"', "'"), 'TBL',
-              "parse_key: default method 'num', rev from the .rev group, key '<var>.<method>'",
-              detail_bad="parse_key changed", key="TBL|parse_key|shape")
+              "parse_key: default method 'num', rev from the .rev group, key '<var>.<method>'")
     illegal = [n for n in walk_local(fi.node) if isinstance(n, ast.Assign) and norm(n.targets[0]) == 'illegal_key_error']
-    ctx.check(bool(illegal) and norm(illegal[0].value).startswith('ValueError('), 'TBL',
-              'illegal_key_error is a ValueError', detail_bad="illegal_key_error type changed",
-              key="TBL|_sort_custom|illegal_key_error")
+    bad_t = bool(illegal) and isinstance(illegal[0].value, ast.Call) and \
+        (dotted(illegal[0].value.func) or '') not in ('ValueError',) and \
+        (dotted(illegal[0].value.func) or '').endswith('Error')
+    ctx.tri(bool(illegal) and norm(illegal[0].value).startswith('ValueError('), bad_t, 'TBL',
+            'illegal_key_error is a ValueError',
+            detail_bad=f"an uninterpretable key raises {norm(illegal[0].value)[:40] if illegal else ''}, not ValueError",
+            key="TBL|_sort_custom|illegal_key_error")
 
-    _defaults(ctx, fi, env)
-    _perm(ctx, fi)
+    ctx.attempt(_defaults, fi, env)
+    ctx.attempt(_perm, fi)
 
 
 def _defaults(ctx, fi, env):
@@ -137,41 +140,58 @@ def _defaults(ctx, fi, env):
                   for k, v in zip(n.value.keys, n.value.values) if isinstance(k, ast.Constant)}
     if sd is None:
         raise AnalysisError("_sort_custom: sort_defs literal not found")
+    other = {'t': ('rge_num', 'sec_num', 'w_to_e'), 'r': ('twp_num', 'sec_num', 'n_to_s'),
+             's': ('twp_num', 'rge_num', 'n_to_s', 'w_to_e'), 'i': ('twp_num', 'rge_num', 'sec_num')}
     for k, want in pairs.items():
-        ctx.check(sd.get(k, '').replace('"', "'") == want, 'TBL', f"sort_defs[{k!r}] evaluates {want}",
-                  detail_bad=f"sort_defs[{k!r}] = {sd.get(k)}", key=f"TBL|_sort_custom|def|{k}")
+        got = sd.get(k, '').replace('"', "'")
+        bad = any(o in got for o in other[k[0]])
+        if k in ('t.ns', 't.sn', 'r.we', 'r.ew') and got:
+            # direction flag must match: plain for ns/we, reverse=True for sn/ew
+            if ('reverse=True' in got) != (k in ('t.sn', 'r.ew')) and ('n_to_s(' in got or 'w_to_e(' in got):
+                bad = True
+        ctx.tri(got == want, bad, 'TBL', f"sort_defs[{k!r}] evaluates {want}",
+                detail_bad=f"sort_defs[{k!r}] = {sd.get(k)}: sorts by another component / direction",
+                key=f"TBL|_sort_custom|def|{k}")
     # direction helpers: attribute read <-> substitute
     for helper, attr, dirattr in (('n_to_s', 'twp_num', 'twp_ns'), ('w_to_e', 'rge_num', 'rge_ew')):
         h = ctx.repo.func(f"_TRSTractList._sort_custom.{helper}")
         t = [norm(s) for s in walk_local(h.node) if isinstance(s, ast.stmt)]
-        ctx.check(f"num = element.{attr}" in t and any(x.endswith(f"= element.{dirattr}") for x in t), 'SIB',
-                  f"{helper} reads element.{attr} / element.{dirattr}",
-                  detail_bad=f"{helper} reads other attributes", key=f"SIB|{helper}|reads")
+        reads = {n.attr for n in ast.walk(h.node) if isinstance(n, ast.Attribute) and norm(n.value) == 'element'}
+        wrong = reads - {attr, dirattr}
+        ctx.tri(reads == {attr, dirattr}, bool(wrong & {'twp_num', 'rge_num', 'sec_num', 'twp_ns', 'rge_ew'}), 'SIB',
+                f"{helper} reads element.{attr} / element.{dirattr}",
+                detail_bad=f"{helper} reads {sorted(wrong)} of the element: it orders by another component",
+                key=f"SIB|{helper}|reads")
         subs = [n for n in walk_local(h.node) if isinstance(n, ast.Assign) and norm(n.targets[0]) == 'num'
                 and isinstance(n.value, ast.Name) and any(norm(tt) == 'num is None' and pol for tt, pol in guards(n))]
-        ok = len(subs) == 1 and dflt.get(subs[0].value.id) == attr
-        ctx.check(ok, 'SIB', f"{helper}: a missing {attr} is replaced by max({attr})+1",
-                  detail_bad=f"substitute is `{norm(subs[0]) if subs else None}` "
-                             f"(max+1 of {dflt.get(subs[0].value.id) if subs else None!r}): error elements "
-                             f"are not guaranteed to sort after all valid ones",
-                  key=f"SIB|{helper}|substitute", where=common.loc(h, subs[0]) if subs else None)
-        ctx.check(any('multiplier *= -1 if reverse else 1' in x for x in t), 'SIB',
+        # every default_<x> name used in the helper must be the one of its own component
+        used_d = {n.id for n in ast.walk(h.node) if isinstance(n, ast.Name) and n.id in dflt}
+        wrong_d = {d for d in used_d if dflt[d] != attr}
+        ctx.tri(bool(used_d) and not wrong_d, bool(wrong_d), 'SIB',
+                f"{helper}: a missing {attr} is replaced by max({attr})+1",
+                detail_bad=f"{helper} substitutes {sorted(wrong_d)} (max+1 of {[dflt[d] for d in sorted(wrong_d)]}) for a "
+                           f"missing {attr}: error elements are not guaranteed to sort after all valid ones",
+                key=f"SIB|{helper}|substitute", where=h.loc)
+        ctx.shape(any('multiplier *= -1 if reverse else 1' in x for x in t), 'SIB',
                   f"{helper}: error elements keep their end of the list in both directions",
-                  detail_bad="the final sign correction for error elements is gone", key=f"SIB|{helper}|errsign")
+                  why="sign arithmetic restructured (not decided)")
     es = ctx.repo.func('_TRSTractList._sort_custom.extract_safe_num')
     t = [norm(s) for s in walk_local(es.node) if isinstance(s, ast.stmt)]
-    ctx.check('val = getattr(tract, var)' in t and 'val = assume[var]' in t, 'SIB',
-              'extract_safe_num substitutes assume[var] for a missing number',
-              detail_bad="extract_safe_num changed", key="SIB|extract_safe_num")
+    ctx.shape('val = getattr(tract, var)' in t and 'val = assume[var]' in t, 'SIB',
+              'extract_safe_num substitutes assume[var] for a missing number')
     gm = ctx.repo.func('_TRSTractList._sort_custom.get_max')
     t = ' '.join(norm(s) for s in walk_local(gm.node) if isinstance(s, ast.stmt))
-    ctx.check('return max(nums)' in t and 'return 0' in t and 'is not None' in t, 'SIB',
-              'get_max: largest valid number (0 if none)', detail_bad="get_max changed", key="SIB|get_max")
+    ctx.tri('return max(nums)' in t and 'return 0' in t and 'is not None' in t,
+            'min(' in t and 'max(' not in t, 'SIB',
+            'get_max: largest valid number (0 if none)', detail_bad="get_max takes a minimum", key="SIB|get_max")
     ie = ctx.repo.func('_TRSTractList._sort_custom.i_sort_evaluate')
     t = ' '.join(norm(s) for s in walk_local(ie.node) if isinstance(s, ast.stmt))
-    ctx.check('isinstance(list_element, Tract)' in t and 'return list_element._Tract__uid' in t and 'return 0' in t,
-              'SIB', 'i_sort_evaluate is total (creation counter for Tract, 0 otherwise)',
-              detail_bad="i_sort_evaluate changed", key="SIB|i_sort_evaluate")
+    rets = [n.value for n in walk_local(ie.node) if isinstance(n, ast.Return) and n.value is not None]
+    attrs_ret = {n.attr for r_ in rets for n in ast.walk(r_) if isinstance(n, ast.Attribute)}
+    ctx.tri('_Tract__uid' in attrs_ret and len(attrs_ret) == 1, bool(attrs_ret - {'_Tract__uid'}) and '_Tract__uid' not in attrs_ret,
+            'SIB', "the 'i' key orders Tracts by the global creation counter",
+            detail_bad=f"i_sort_evaluate returns {sorted(attrs_ret)}: not the creation counter (tracts created by "
+                       f"different descriptions share index values)", key="SIB|i_sort_evaluate")
 
 
 def _perm(ctx, fi):
@@ -182,26 +202,26 @@ def _perm(ctx, fi):
     calls = [c for c in ast.walk(loop) if isinstance(c, ast.Call)]
     sorts = [c for c in calls if dotted(c.func) == 'self.sort']
     ok = len(sorts) == 1 and {k.arg: norm(k.value) for k in sorts[0].keywords} == {'key': 'sort_defs[sk]', 'reverse': 'rev'}
-    ctx.check(ok, 'PERM', 'each key is one stable sort: self.sort(key=sort_defs[sk], reverse=rev)',
-              detail_bad=f"per-key sort call is {[norm(c) for c in sorts]}", key="PERM|_sort_custom|sortcall")
+    nokw = len(sorts) == 1 and 'reverse' not in {k.arg for k in sorts[0].keywords} and len(sorts[0].args) < 2
+    ctx.tri(ok, nokw, 'PERM', 'each key is one stable sort: self.sort(key=sort_defs[sk], reverse=rev)',
+            detail_bad=f"per-key sort call `{norm(sorts[0]) if sorts else ''}` does not pass the key's reverse flag",
+            key="PERM|_sort_custom|sortcall")
     revs = [c for c in calls if isinstance(c.func, ast.Attribute) and c.func.attr == 'reverse'
             or dotted(c.func) in ('reversed',)]
     ctx.check(not revs, 'PERM', 'no list reversal inside the per-key loop (reversal would undo stability)',
               detail_bad=f"`{norm(revs[0]) if revs else ''}` inside the key loop: ties come out in inverted prior order",
               key="PERM|_sort_custom|reverse-in-loop", where=common.loc(fi, revs[0]) if revs else None)
     t = [norm(s) for s in fi.node.body]
-    ctx.check("keys = key.split(',')" in t, 'PERM', 'keys are applied left to right (comma split, in order)',
-              detail_bad="key splitting changed", key="PERM|_sort_custom|split")
+    ctx.shape("keys = key.split(',')" in t, 'PERM', 'keys are applied left to right (comma split, in order)')
     ctx.check(not any('reversed(' in x or '[::-1]' in x for x in t), 'PERM', 'key order is not reversed',
               detail_bad="keys iterated in another order", key="PERM|_sort_custom|order")
     s = ctx.repo.func('_TRSTractList.sort')
     t = ' '.join(norm(x) for x in walk_local(s.node) if isinstance(x, ast.stmt))
-    ctx.check('return self._elements.sort(key=key, reverse=reverse)' in t, 'PERM',
-              'TractList.sort permutes _elements in place with list.sort (stable)',
-              detail_bad="sort no longer delegates to list.sort on _elements", key="PERM|sort")
+    ctx.tri('self._elements.sort(key=key, reverse=reverse)' in t, 'sorted(' in t and '_elements =' in t, 'PERM',
+            'TractList.sort permutes _elements in place with list.sort (stable)',
+            detail_bad="sort rebinds _elements to a sorted copy", key="PERM|sort")
     r = ctx.repo.func('_TRSTractList.reverse')
-    ctx.check(norm(r.node.body[-1]) == 'self._elements.reverse()', 'PERM', 'reverse() is list.reverse on _elements',
-              detail_bad="reverse changed", key="PERM|reverse")
+    ctx.shape(norm(r.node.body[-1]) == 'self._elements.reverse()', 'PERM', 'reverse() is list.reverse on _elements')
     # sorting functions never rebind / filter _elements
     for spec in ('_TRSTractList._sort_custom', '_TRSTractList.custom_sort', '_TRSTractList.sort'):
         f2 = ctx.repo.func(spec)
@@ -211,12 +231,10 @@ def _perm(ctx, fi):
                   key=f"PERM|{spec}|rebind")
     cs = ctx.repo.func('_TRSTractList.custom_sort')
     t = ' '.join(norm(x) for x in walk_local(cs.node) if isinstance(x, ast.stmt))
-    ctx.check('self._sort_custom(key, reverse)' in t and 'for sk, rv in zip(key, reverse)' in t
+    ctx.shape('self._sort_custom(key, reverse)' in t and 'for sk, rv in zip(key, reverse)' in t
               and 'self.sort(key=key, reverse=reverse)' in t, 'PERM',
-              'custom_sort dispatch: str -> _sort_custom, list -> each in order, callable -> list.sort',
-              detail_bad="custom_sort dispatch changed", key="PERM|custom_sort|dispatch")
+              'custom_sort dispatch: str -> _sort_custom, list -> each in order, callable -> list.sort')
     ps = ctx.repo.func('PLSSDesc.sort_tracts')
     t = ' '.join(norm(x) for x in walk_local(ps.node) if isinstance(x, ast.stmt))
-    ctx.check('self.tracts.custom_sort(key=key, reverse=reverse)' in t, 'PERM',
-              'PLSSDesc.sort_tracts delegates to TractList.custom_sort',
-              detail_bad="sort_tracts changed", key="PERM|sort_tracts")
+    ctx.shape('self.tracts.custom_sort(key=key, reverse=reverse)' in t, 'PERM',
+              'PLSSDesc.sort_tracts delegates to TractList.custom_sort')
